@@ -1,0 +1,20 @@
+//go:build verif
+
+package querier
+
+import (
+	"sync/atomic"
+
+	"google.golang.org/grpc"
+)
+
+// MaxBlockHeightResponseForVerif runs getMaxBlockHeightResponse (verification harness only): the answer of the node with
+// the greatest block height, refused when it is older than an answer returned before.
+func MaxBlockHeightResponseForVerif[I, O any](
+	fs []QueryFunction[I, O],
+	in *I,
+	maxBlockHeight *atomic.Int64,
+	opts ...grpc.CallOption,
+) (*O, error) {
+	return getMaxBlockHeightResponse(fs, in, maxBlockHeight, opts...)
+}
